@@ -7,7 +7,7 @@ h_step:            ONE operation from an ARBITRARY sharing configuration (which 
                    configuration came about.
 """
 from metapype.model.node import Node
-from harness.hlib import part
+from harness.hlib import fresh, part
 
 PARENTS = {0: [None, 0, 1, 0], 1: [None, 0, 0, 0], 2: [None, 0, None, 2], 3: [None, 0, 1, None]}
 _P = part(0)
@@ -40,7 +40,7 @@ def subtree(parent, i):
 
 
 def _forest(shape):
-    Node.store.clear()
+    fresh()
     parent = list(PARENTS[shape])
     ns = [Node("n%d" % i, id="n%d" % i) for i in range(4)]
     for j, p in enumerate(parent):
@@ -66,15 +66,17 @@ def _check(ns, model, loose, what):
 
 
 def step(ns, parent, model, kind, i, p, u, t):
-    pfx = PFX[p]
-    uri = URI[u]
+    # p, u may be symbolic bools: they are only looked at by the operations that use them (keeps the path tree small)
     loose = {}
     if kind == 0:
+        pfx = PFX[1 if p else 0]
+        uri = URI[1 if u else 0]
         what = "n%d.add_namespace(%s,%s)" % (i, pfx, uri)
         ns[i].add_namespace(pfx, uri)
         for j in subtree(parent, i):
             model[j][pfx] = uri
     elif kind == 1:
+        pfx = PFX[1 if p else 0]
         what = "n%d.remove_namespace(%s)" % (i, pfx)
         ns[i].remove_namespace(pfx)
         for j in subtree(parent, i):
@@ -103,11 +105,11 @@ def h_hist2(p1: bool, u1: bool, t1: int, k2: int, i2: int, p2: bool, u2: bool, t
     post: _ == ""
     """
     ns, parent, model = _forest(SHAPE)
-    r = step(ns, parent, model, K1, I1, 1 if p1 else 0, 1 if u1 else 0, cint(t1, 4) if K1 == 2 else 0)
+    r = step(ns, parent, model, K1, I1, p1, u1, cint(t1, 4) if K1 == 2 else 0)
     if r:
         return r
     k2 = cint(k2, 3)
-    return step(ns, parent, model, k2, cint(i2, 4), 1 if p2 else 0, 1 if u2 else 0, cint(t2, 4) if k2 == 2 else 0)
+    return step(ns, parent, model, k2, cint(i2, 4), p2, u2, cint(t2, 4) if k2 == 2 else 0)
 
 
 def h_hist3(p1: bool, u1: bool, t1: int, p2: bool, u2: bool, t2: int, k3: int, i3: int, p3: bool, u3: bool, t3: int) -> str:
@@ -117,14 +119,14 @@ def h_hist3(p1: bool, u1: bool, t1: int, p2: bool, u2: bool, t2: int, k3: int, i
     """
     ns, parent, model = _forest(SHAPE)
     k2, i2 = (PIN2 - 1) // 4, (PIN2 - 1) % 4
-    r = step(ns, parent, model, K1, I1, 1 if p1 else 0, 1 if u1 else 0, cint(t1, 4) if K1 == 2 else 0)
+    r = step(ns, parent, model, K1, I1, p1, u1, cint(t1, 4) if K1 == 2 else 0)
     if r:
         return r
-    r = step(ns, parent, model, k2, i2, 1 if p2 else 0, 1 if u2 else 0, cint(t2, 4) if k2 == 2 else 0)
+    r = step(ns, parent, model, k2, i2, p2, u2, cint(t2, 4) if k2 == 2 else 0)
     if r:
         return r
     k3 = cint(k3, 3)
-    return step(ns, parent, model, k3, cint(i3, 4), 1 if p3 else 0, 1 if u3 else 0, cint(t3, 4) if k3 == 2 else 0)
+    return step(ns, parent, model, k3, cint(i3, 4), p3, u3, cint(t3, 4) if k3 == 2 else 0)
 
 
 # ------------------------------------------------------------------ one step from an arbitrary sharing configuration
@@ -142,7 +144,7 @@ def h_step(c0: int, c1: int, c2: int, c3: int, kind: int, i: int, u: bool, t: in
     pre: 0 <= kind <= 2 and 0 <= i <= 3 and 0 <= t <= 3
     post: _ == ""
     """
-    Node.store.clear()
+    fresh()
     parent = list(PARENTS[SHAPE])
     ns = [Node("n%d" % j, id="n%d" % j) for j in range(4)]
     for j, p in enumerate(parent):
@@ -164,7 +166,7 @@ def h_step(c0: int, c1: int, c2: int, c3: int, kind: int, i: int, u: bool, t: in
         ns[j].nsmap = groups[g]
     model = [dict(ns[j].nsmap) for j in range(4)]
     kind = cint(kind, 3)
-    return step(ns, parent, model, kind, cint(i, 4), 0, 1 if u else 0, cint(t, 4) if kind == 2 else 0)
+    return step(ns, parent, model, kind, cint(i, 4), False, u, cint(t, 4) if kind == 2 else 0)
 
 
 def h_bulk(c0: int, c1: int, c2: int, c3: int, which: int, i: int, children: bool) -> str:
@@ -175,7 +177,7 @@ def h_bulk(c0: int, c1: int, c2: int, c3: int, which: int, i: int, children: boo
     """
     # the bulk helpers: set_nsmap replaces the maps of a node (and optionally its subtree); fix_nsmap pushes a node's
     # bindings down its subtree.  Neither may touch a node outside the subtree it is applied to.
-    Node.store.clear()
+    fresh()
     parent = list(PARENTS[SHAPE])
     ns = [Node("n%d" % j, id="n%d" % j) for j in range(4)]
     for j, p in enumerate(parent):
